@@ -40,7 +40,28 @@ def needs_dt(t: Any) -> Any:
     return And(GTerm.is_Lit(t), GTerm.has_dt(t), GTerm.dt(t) != "", GTerm.dt(t) != XSD_STRING)
 
 
+# which exception encoding a term ends in (0 none, 1 NotImplementedError, 2 JellyConformanceError); second argument:
+# "the datatype table is disabled".  Defined by structural recursion in the encoding order s, p, o; every term value
+# the engine creates comes with the one-level unfolding below (a definitional axiom, never an obligation).
+exc_of = z3.Function("exc_of", GTerm, z3.BoolSort(), z3.IntSort())
+
+
+def exc_unfold(t: Any, dz: Any) -> Any:
+    qs, qp, qo = GTerm.qs(t), GTerm.qp(t), GTerm.qo(t)
+    return And(
+        z3.Implies(Or(GTerm.is_IRI(t), GTerm.is_BNode(t)), exc_of(t, dz) == 0),
+        z3.Implies(GTerm.is_Lit(t), exc_of(t, dz) == z3.If(And(needs_dt(t), dz), 2, 0)),
+        z3.Implies(Or(GTerm.is_Other(t), GTerm.is_DefaultGraph(t)), exc_of(t, dz) == 1),
+        z3.Implies(GTerm.is_QTriple(t), exc_of(t, dz) == z3.If(exc_of(qs, dz) != 0, exc_of(qs, dz),
+                                                             z3.If(exc_of(qp, dz) != 0, exc_of(qp, dz), exc_of(qo, dz)))),
+        exc_of(t, dz) >= 0, exc_of(t, dz) <= 2)
+
+
 def unfold(t: Any) -> list:
+    return [exc_unfold(t, z3.BoolVal(True)), exc_unfold(t, z3.BoolVal(False))] + _unfold_occ(t)
+
+
+def _unfold_occ(t: Any) -> list:
     return [
         occ_n(t) >= 0, occ_d(t) >= 0, depth(t) >= 0,
         z3.Implies(GTerm.is_IRI(t), And(occ_n(t) == 1, occ_d(t) == 0)),
